@@ -46,6 +46,7 @@ class Ctx:
         self.samples: List[Any] = []
         self.violations: List[dict] = []
         self.known_hits: Dict[str, int] = {}
+        self.clause_counts: Dict[str, int] = {}
         self.known_example: Dict[str, str] = {}
         self.drift = 0
         self.drift_samples: List[Any] = []
@@ -85,6 +86,8 @@ class Ctx:
     # ---------------------------------------------------------------- verdicts
     def violation(self, case: Any, clauses: List[str], signature: str = "", what: str = ""):
         """A property predicate is FALSE on data the real code produced."""
+        key = ",".join(clauses) + (f" [{signature}]" if signature else "")
+        self.clause_counts[key] = self.clause_counts.get(key, 0) + 1
         for k in self.known:
             if k.get("signature") and k["signature"] == signature:
                 self.known_hits[k["id"]] = self.known_hits.get(k["id"], 0) + 1
@@ -117,6 +120,7 @@ class Ctx:
             "drift_cases": self.drift,
             "drift_samples": self.drift_samples,
             "known_finding_hits": self.known_hits,
+            "failed_clause_counts": self.clause_counts,
         }
         cov.update(self.notes)
         ev = {
@@ -145,6 +149,8 @@ class Ctx:
             seen.add(v["path"])
             print(f"VIOLATION property={self.prop} replay={v['path']}  clauses={','.join(v['clauses'])} {v['what']}")
         shutil.rmtree(self.workdir, ignore_errors=True)
+        if self.clause_counts:
+            print("failed clauses:", json.dumps(self.clause_counts))
         print(f"{self.prop} {self.tier}: states={self.states} transitions={self.transitions} traces={self.traces} "
               f"nontrivial={cov['distinct_nontrivial']} drift={self.drift} violations={len(self.violations)} "
               f"wall={wall:.1f}s")
